@@ -247,6 +247,11 @@ func parseRequestDataToRequest(lmd *Daemon, requestData map[string]interface{}) 
 	}
 	req.Backends = backends
 
+	// AuthUser
+	if val, ok := requestData["authuser"]; ok {
+		req.AuthUser = interface2stringNoDedup(val)
+	}
+
 	// resolve the requested and the sort columns like NewRequest does for a livestatus request
 	req.SetRequestColumns()
 	err = req.SetSortColumns()
